@@ -194,8 +194,81 @@ def region_axes(store, fvar_axes):
     return [r.get_support(fvar_axes) for r in store.VarRegionList.Region]
 
 
+class LimitCtx:
+    """What a limit specification does to the tents of the ORIGINAL font.
+
+    The instancer documents (solver.rebaseTent) that one tent on one restricted axis becomes
+    an always-on 'gain' share (non-zero iff the tent is non-zero at the new default) plus, on
+    each side of the new default, at most two overlapping tents whose scalars sum to <= 1.
+    Every resulting delta set is rounded once (0.5 x its scalar); the share that has no axis
+    left is added to the default value, which is rounded once (the leading 0.5 of a budget).
+    Delta sets that round to zero disappear from the instance, so the count has to come from
+    the original.  weight(region) bounds sum(scalars at x of the delta sets made from it)."""
+
+    def __init__(self, font, axes, new_triples):
+        self.status = {}
+        self.newdef = {}
+        lo_u, d_u, hi_u = {}, {}, {}
+        for tag, lo, df, hi in axes:
+            if tag in new_triples:
+                a, d, b = new_triples[tag]
+                self.status[tag] = "pinned" if a == b else "restricted"
+                lo_u[tag], d_u[tag], hi_u[tag] = a, d, b
+                self.newdef[tag] = d
+            else:
+                self.status[tag] = "free"
+                lo_u[tag], d_u[tag], hi_u[tag] = lo, df, hi
+        self.n_lo = norm_location(font, lo_u)
+        self.n_d = norm_location(font, d_u)
+        self.n_hi = norm_location(font, hi_u)
+        self.nx = None
+        self.u = None
+        self._memo = {}
+
+    def at(self, u, nx):
+        self.u, self.nx = u, nx
+        self._memo = {}
+        return self
+
+    def weight(self, axes):
+        key = tuple(sorted(axes.items()))
+        w = self._memo.get(key)
+        if w is None:
+            w = self._memo[key] = self._weight(axes)
+        return w
+
+    def _weight(self, axes):
+        s_free, prod, allgain = 1.0, 1.0, 1.0
+        has_free = touched = False
+        for tag, (lo, pk, hi) in axes.items():
+            if pk == 0:
+                continue
+            st = self.status.get(tag, "free")
+            tent = {tag: (lo, pk, hi)}
+            if st == "free":
+                has_free = True
+                s_free *= supportScalar({tag: self.nx.get(tag, 0.0)}, tent)
+                if not s_free:
+                    return 0.0
+                continue
+            touched = True
+            g = 1.0 if supportScalar({tag: self.n_d[tag]}, tent) else 0.0
+            if st == "pinned":
+                if not g:
+                    return 0.0
+                continue
+            a, b = sorted((self.n_lo[tag], self.n_hi[tag]))
+            overlaps = max(lo, a) <= min(hi, b) + 1e-4
+            t = 1.0 if (overlaps and self.u[tag] != self.newdef[tag]) else 0.0
+            prod *= t + g
+            allgain *= g
+        if not touched:
+            return 0.0  # integer deltas kept as they are
+        return s_free * max(prod - (0.0 if has_free else allgain), 0.0)
+
+
 class StoreInfo:
-    """ItemVariationStore summary: per item rounding budget at a location and Lipschitz bound."""
+    """ItemVariationStore summary: regions, Lipschitz bounds, per-item rounding weights."""
 
     def __init__(self, store, fvar_axes):
         self.store = store
@@ -205,31 +278,43 @@ class StoreInfo:
     def scalars(self, nloc):
         return [supportScalar(nloc, r) for r in self.regions]
 
-    def item_budget(self, varidx, scalars):
-        """0.5 * sum of the scalars of the regions that hold a delta column for this item"""
+    def _item(self, varidx):
         if self.store is None or varidx == 0xFFFFFFFF:
-            return 0.0
+            return None, None
         major, minor = varidx >> 16, varidx & 0xFFFF
         if major >= len(self.store.VarData):
-            return 0.0
-        vd = self.store.VarData[major]
-        return 0.5 * sum(scalars[ri] for ri in vd.VarRegionIndex)
-
-    def item_lip(self, varidx):
-        if self.store is None or varidx == 0xFFFFFFFF:
-            return 0.0
-        major, minor = varidx >> 16, varidx & 0xFFFF
-        if major >= len(self.store.VarData):
-            return 0.0
+            return None, None
         vd = self.store.VarData[major]
         if minor >= len(vd.Item):
-            return 0.0
-        return sum(abs(d) * self.lips[ri] for d, ri in zip(vd.Item[minor], vd.VarRegionIndex))
+            return None, None
+        return vd, vd.Item[minor]
 
-    def max_budget(self, scalars):
+    def item_weight(self, varidx, ctx):
+        """sum of ctx.weight over the regions that hold a non-zero delta for the item"""
+        vd, item = self._item(varidx)
+        if vd is None:
+            return 0.0
+        return sum(ctx.weight(self.regions[ri]) for d, ri in zip(item, vd.VarRegionIndex) if d)
+
+    def item_lip(self, varidx):
+        vd, item = self._item(varidx)
+        if vd is None:
+            return 0.0
+        return sum(abs(d) * self.lips[ri] for d, ri in zip(item, vd.VarRegionIndex))
+
+    def max_weight(self, ctx, all_regions=False):
+        """largest item weight of the store (all_regions: the deltas live elsewhere, as in
+        CFF2 charstrings: every region of a VarData counts)"""
         if self.store is None:
             return 0.0
-        return max([0.0] + [0.5 * sum(scalars[ri] for ri in vd.VarRegionIndex) for vd in self.store.VarData])
+        m = 0.0
+        for vd in self.store.VarData:
+            if all_regions:
+                m = max(m, sum(ctx.weight(self.regions[ri]) for ri in vd.VarRegionIndex))
+            else:
+                for item in vd.Item:
+                    m = max(m, sum(ctx.weight(self.regions[ri]) for d, ri in zip(item, vd.VarRegionIndex) if d))
+        return m
 
     def max_lip(self):
         if self.store is None:
@@ -327,15 +412,19 @@ class Observer:
                 coords += GlyphCoordinates(delta) * s
         return [(x, y) for x, y in coords]
 
-    def gvar_own_budget(self, gn, nloc, optimize):
-        """rounding budget of the glyph's own points at nloc: 0.5 for the rounded default
-        coordinates + per stored tuple scalar * (0.5 rounding + 0.5 IUP tolerance if optimised)"""
-        b = 0.5
-        if self.gvar is not None and nloc:
-            per = 0.5 + (0.5 if optimize else 0.0)
-            for var in self.gvar.variations.get(gn, []):
-                b += per * supportScalar(nloc, var.axes)
-        return b
+    def gvar_round_weight(self, gn, ctx):
+        """ORIGINAL side: bound on sum(scalars) of the rounded delta sets made from this glyph's
+        tuples under the limits of ctx, at ctx's location"""
+        if self.gvar is None:
+            return 0.0
+        return sum(ctx.weight(var.axes) for var in self.gvar.variations.get(gn, []))
+
+    def gvar_iup_weight(self, gn, nloc):
+        """INSTANCE side: sum(scalars) of the stored tuples (each is IUP-optimised with
+        tolerance 0.5 when optimize=True)"""
+        if self.gvar is None or not nloc:
+            return 0.0
+        return sum(supportScalar(nloc, var.axes) for var in self.gvar.variations.get(gn, []))
 
     def gvar_lip(self, gn):
         """Lipschitz bound of any coordinate of the glyph w.r.t. the normalised location"""
@@ -367,15 +456,13 @@ class Observer:
             out.append((c.glyphName, s))
         return out
 
-    def draw_budget(self, gn, nloc, optimize, depth=0):
-        """(budget, lipschitz) of a drawn outline coordinate, composites resolved recursively"""
-        b, l = self.gvar_own_budget(gn, nloc, optimize), self.gvar_lip(gn)
+    def draw_lip(self, gn, depth=0):
+        """Lipschitz bound of a drawn outline coordinate, composites resolved recursively"""
+        l = self.gvar_lip(gn)
         comps = self.components(gn) if depth < 8 else []
         if comps:
-            sub = [self.draw_budget(c, nloc, optimize, depth + 1) for c, _s in comps]
-            b += max(s * sb for (_c, s), (sb, _sl) in zip(comps, sub))
-            l += max(s * sl for (_c, s), (_sb, sl) in zip(comps, sub))
-        return b, l
+            l += max(s * self.draw_lip(c, depth + 1) for c, s in comps)
+        return l
 
     # ---- observation of everything at one user location
     def observe(self, uloc, want_hb_outlines=True, glyphs=None):
